@@ -77,6 +77,21 @@ func directed(newState bool) []*Seq {
 		{NewState: newState, Engine: "memory", Ops: []Op{st(1, 3), st(2, 4), st(1, 4), st(2, 3), {K: "R"}, st(1, 3), {K: "N"}, {K: "R"}, st(2, 4)}},
 		// failed store, snapshot of the (uncommitted) in-memory filter, another block, ungraceful restart
 		{NewState: newState, Engine: "memory", Ops: []Op{st(1, 4), st(1, 4), st(2, 4), {K: "N"}, st(1, 3), {K: "U"}, st(1, 4)}},
+		// REPAIRED in /repo (the initialiser consumes the snapshot): graceful restart (snapshot at shutdown), the
+		// new process reverts the head and stores a different block, ungraceful restart, store. Before the
+		// repair the last restart accepted the stale snapshot (class crash:stale-filter-snapshot, model witness
+		// C05_crash_index_refuted_before_fix); now every crash image and every failed-commit run must be clean
+		// (C05_crash_index_repaired): a stale answer here is NOT a known finding (crash:stale-shutdown-snapshot).
+		{NewState: newState, Engine: "memory", Ops: []Op{st(1, 3), st(2, 4), st(1, 4), {K: "G"}, {K: "R"}, st(2, 3), {K: "U"}, st(1, 3)}},
+		// REPAIRED (shutdown variant of failed-store:uncommitted-filter-state-persisted-by-snapshot): when the commit of
+		// the third store fails, its column stays in memory; the snapshot is taken AT SHUTDOWN: the new process reads
+		// a future-dated snapshot (next = head + 2), consumes it and rebuilds from headers; a different block is
+		// stored, ungraceful restart: correct answers (C05_fault_uncommitted_snapshot_refuted, r1).
+		{NewState: newState, Engine: "memory", Ops: []Op{st(1, 4), st(1, 4), st(2, 4), {K: "G"}, st(1, 3), {K: "U"}, st(1, 4)}},
+		// WHAT SURVIVES the repair: the same history with the snapshot written in the middle of the process's
+		// life (WriteRunningEventFilter without a restart): the ungraceful restart accepts the stale snapshot
+		// (C05_crash_index_midlife_snapshot_refuted); it consumes it, so the second restart rebuilds.
+		{NewState: newState, Engine: "memory", Ops: []Op{st(1, 3), st(2, 4), st(1, 4), {K: "N"}, {K: "R"}, st(2, 3), {K: "U"}, {K: "U"}, st(1, 3)}},
 		// the window end: stores of 8190, 8191 (end), 8192, reverts back across it, re-stores. This is the
 		// regression input of the former class revert-across-window:stale-persisted-window (fixed in /repo
 		// by 5440575): every crash image of it must be consistent and take the next block.
